@@ -2,7 +2,7 @@ import Hive.Model.BatchWriter
 /-!
 # A small language for the straight-line callers of kvstore/batch_writer.go and its meaning as protocol steps (C08)
 
-`harness/c08/callgen` translates `StopBatchWriter`, `Flush` and `startBatchWriter` (go/ast) into terms of `PS` on every
+`harness/c08/callgen` translates `StopBatchWriter`, `Flush`, `startBatchWriter` and `Enqueue` (go/ast) into terms of `PS` on every
 run (`Hive/Gen/C08_Calls.lean`).  `flatten` lays a term out as an instruction list (an `if` becomes a conditional branch
 over its body), `stepI` gives every instruction its meaning as one atomic step on the shared state of the protocol
 model — the Go semantics of `sync.Mutex`, `atomic.Bool`, `sync.WaitGroup`, `go`, and a non-blocking send on the
@@ -11,6 +11,7 @@ model's `stepStop`, `stepFlush` and the `startBatchWriter` part of `stepProd` ar
 (program counter ↔ instruction index), i.e. these parts of the model are derived from the source text.  Core Lean only.
 -/
 namespace Hive.BatchWriter.Calls
+open Hive.Spec.BatchWriter
 
 inductive PS
   | lock | unlock                       -- bw.startStopMutex.Lock() / Unlock()
@@ -20,11 +21,22 @@ inductive PS
   | goWriter                            -- go bw.runBatchWriter()
   | flushTrySend                        -- select { case bw.flushChan <- struct{}{}: default: }
   | ifRunning (neg : Bool) (thn : List PS)   -- if [!]bw.running.Load() { thn }
+  | onceDo (body : List PS)             -- bw.autoStartOnce.Do(func() { body })
+  | callStart                           -- bw.startBatchWriter()
+  | countAdd (n : Int)                  -- bw.scheduledCount.Add(n)
+  | yield                               -- verifYield("BatchedWriter.Enqueue:after-running-check")
+  | ifScheduled (thn : List PS)         -- if object.BatchWriteScheduled() { thn }
+  | send                                -- bw.batchQueue <- object
+  | ret                                 -- return
   | unsupported (text : String)
 
 inductive I
   | lock | unlock | storeRunning (b : Bool) | wgAdd (n : Nat) | wgWait | goWriter | flushTrySend
   | brRunning (neg : Bool) (els : Nat)  -- load `running`; go on if the guard holds, otherwise jump to `els`
+  | onceEnter (els : Nat)               -- sync.Once: first caller enters the body, later ones wait for its end, then `els`
+  | onceExit                            -- the body has returned: the Once is done
+  | callStart | countAdd (n : Int) | yield | send | ret
+  | brScheduled (els : Nat)             -- object.BatchWriteScheduled(): was scheduled → go on, newly scheduled → `els`
   | unsupported
 deriving DecidableEq, Repr
 
@@ -40,6 +52,17 @@ def flatS (base : Nat) : PS → List I
   | .ifRunning neg thn =>
     let body := flatL (base + 1) thn
     .brRunning neg (base + 1 + body.length) :: body
+  | .onceDo body =>
+    let b := flatL (base + 1) body
+    .onceEnter (base + 1 + b.length + 1) :: b ++ [.onceExit]
+  | .callStart => [.callStart]
+  | .countAdd n => [.countAdd n]
+  | .yield => [.yield]
+  | .ifScheduled thn =>
+    let body := flatL (base + 1) thn
+    .brScheduled (base + 1 + body.length) :: body
+  | .send => [.send]
+  | .ret => [.ret]
   | .unsupported _ => [.unsupported]
 
 def flatL (base : Nat) : List PS → List I
@@ -52,8 +75,9 @@ end
 def flatten (p : List PS) : List I := flatL 0 p
 
 /-- One instruction as an atomic step of the protocol model: successor states with the next instruction index; the
-empty list = the calling goroutine is blocked. -/
-def stepI (s : St) (pc : Nat) : I → List (St × Nat)
+empty list = the calling goroutine is blocked (or the function has returned).  `id` / `cur`: the calling producer and the
+object it enqueues (for the events of the harness-side object: yield point, flag test-and-set). -/
+def stepI (s : St) (pc : Nat) (id cur : Nat := 0) : I → List (St × Nat)
   | .lock => if s.mu then [] else [({ s with mu := true }, pc + 1)]
   | .unlock => [({ s with mu := false }, pc + 1)]
   | .storeRunning false => [({ s with running := false, stopped := true }, pc + 1)]
@@ -63,12 +87,39 @@ def stepI (s : St) (pc : Nat) : I → List (St × Nat)
   | .goWriter => [({ s with spawned := true }, pc + 1)]
   | .flushTrySend => [({ s with flushCh := true }, pc + 1)]   -- full buffer: the `default` case, nothing changes
   | .brRunning neg els => [(s, if (if neg then !s.running else s.running) then pc + 1 else els)]
+  | .onceEnter els =>
+    if s.once = 0 then [({ s with once := 1 }, pc + 1)] else if s.once = 3 then [(s, els)] else []
+  | .onceExit => [({ s with once := 3 }, pc + 1)]
+  | .callStart => [(s, pc)]               -- the helper's own program runs (`fn_startBatchWriter`), then `pc + 1`
+  | .countAdd n => [({ s with count := s.count + n }, pc + 1)]
+  | .yield => [(emit (.hook id) { s with win := s.win + 1 }, pc + 1)]
+  | .brScheduled els =>
+    if s.flag cur then [(emit (.schedDup cur) { s with win := s.win - 1 }, pc + 1)]
+    else [(emit (.schedNew cur) { s with flag := upd s.flag cur true }, els)]
+  | .send =>
+    -- a buffered channel with room; an unbuffered one (size 0): hand-over to the writer waiting in a select
+    if s.queue.length < s.qsize then
+      [({ s with queue := s.queue ++ [cur], snt := upd s.snt cur (s.snt cur + 1), win := s.win - 1 }, pc + 1)]
+    else if s.qsize = 0 ∧ (s.wpc = .sel ∨ s.wpc = .fsel) then
+      [({ s with snt := upd s.snt cur (s.snt cur + 1), rcv := upd s.rcv cur (s.rcv cur + 1), wcur := cur, wpc := .addReset,
+                 win := s.win - 1 }, pc + 1)]
+    else []
+  | .ret => []
   | .unsupported => []
 
 /-- the program as a step function: the instruction at `pc`, if any (past the end: the function has returned) -/
-def stepP (prog : List I) (s : St) (pc : Nat) : List (St × Nat) :=
+def stepP (prog : List I) (s : St) (pc : Nat) (id cur : Nat := 0) : List (St × Nat) :=
   match prog[pc]? with
-  | some i => stepI s pc i
+  | some i => stepI s pc id cur i
   | none => []
+
+/-- `stepP` with the yield point fused into the step that reaches it: the yield has no effect on the shared state
+(it records the harness's `hook` event and the ghost `win`), the protocol model takes it together with the running
+check. -/
+def stepPF (prog : List I) (s : St) (pc : Nat) (id cur : Nat) : List (St × Nat) :=
+  (stepP prog s pc id cur).flatMap (fun x =>
+    match prog[x.2]? with
+    | some I.yield => stepI x.1 x.2 id cur I.yield
+    | _ => [x])
 
 end Hive.BatchWriter.Calls
